@@ -234,6 +234,7 @@ func NewWorld(t *Trace, mons []Monitor) *World {
 	w.AppState = appState
 	w.Ref = &Node{Idx: 0, Cfg: DefaultRefCfg(), DB: dbm.NewMemDB()}
 	w.Ref.Cfg.Mempool = t.Knobs.RefMempool
+	w.Ref.AppOpts = appOptsOf(&t.Knobs)
 	w.Ref.Open()
 	w.Now = time.Unix(GenesisTS, 0).UTC()
 	w.Hdr = MakeHeader(0, w.Now, nil)
@@ -241,7 +242,7 @@ func NewWorld(t *Trace, mons []Monitor) *World {
 }
 
 func (w *World) newReplica(i int, cfg NodeCfg) *Node {
-	n := &Node{Idx: i, Cfg: cfg}
+	n := &Node{Idx: i, Cfg: cfg, AppOpts: appOptsOf(&w.T.Knobs)}
 	var inner dbm.DB
 	if cfg.Backend == "goleveldb" && w.scratch != "" {
 		dir := fmt.Sprintf("%s/node%d", w.scratch, i)
@@ -302,6 +303,8 @@ func (w *World) Run() {
 	w.M = NewModels(w)
 	for i, cfg := range w.T.Knobs.Nodes {
 		n := w.newReplica(i+1, cfg)
+		// every node imports the genesis document at its own wall-clock time
+		w.sleep(int64(3 + 7*i))
 		n.Open()
 		n.App.InitChain(InitChainReq(w.AppState))
 		w.Replicas = append(w.Replicas, n)
